@@ -65,3 +65,8 @@ Check (C14_text_reads_back : forall ls v sec l1 r x l2 n s' qls qt lA lN lR w,
   m_set_raw_name w (v, cur_on sec r n) = (s', Ok tt) ->
   it_name (fst s') (snd s') = Ok (ascii_lowercase (dotted ls))).
 Print Assumptions C14_text_reads_back.
+Check (C14_accepted_text_is_policy_name : forall raw name w, copy_raw_name_from_str raw name None = Ok w ->
+  exists ls, Forall label_ok ls /\ w = raw ++ wire_of_labels ls /\ length (wire_of_labels ls) <= 253 /\
+             cname_l (wire_of_labels ls) 0 ls (length (wire_of_labels ls)) /\
+             (name = dotted ls \/ name = dots ls \/ (name = [46%N] /\ ls = []))).
+Print Assumptions C14_accepted_text_is_policy_name.
